@@ -32,6 +32,11 @@ CHECKS = {
             "Every resolve_property call made while executing every accepted query within the deviation bound over five data-rich graphs must name a property listed (once) in the vertex's required_properties() hint.",
             "Calls are observed where data flows; the hint itself depends only on the query.",
             "DESIGN.md §4 C05"),
+    "C09": ("exploration",
+            "bounded-exhaustive program-space enumeration with widened argument domains; every case executed under catch_unwind with three contract-honouring adapters (lazy, always-pre-fetch-all batcher, hint pruner)",
+            "Every frontend-accepted query within the deviation bound (k<=2 quick / k<=3 thorough over the widened operator menu, plus two-edge structures with filter/tag/count deviations) x curated datasets x every argument map of the wide per-variable domains (negative, 0, i64::MIN, u64::MAX, empty and null-containing lists, invalid regex text) that argument validation accepts is run to exhaustion on the real engine with three adapters; any panic located in engine code is a violation.",
+            "Adapters used are the harness's generic graph adapter and order-preserving / hint-driven wrappers of it; a panic located in harness code is a machinery error.",
+            "DESIGN.md §4 C09"),
     "C11": ("exploration",
             "bounded-exhaustive program-space enumeration; each accepted query's IR is checked by an independent structural-invariant checker (I1-I9)",
             "Every IR the frontend produces for the enumerated query space (k<=2 quick, k<=3 thorough; ~36k / ~2.5M queries) satisfies: Eid i -> Vid i+1, dense unique ids, one incoming edge per non-root vertex, folds precede their contents and Eids nest as intervals, edges go low->high, tags visible and defined no later than their use, imported_tags = exactly the parent-defined tags used inside the fold (no duplicates), variables recorded with the intersection of their use types and all used, outputs unique and indexed, all names defined in the schema text.",
@@ -47,6 +52,11 @@ CHECKS = {
             "Every resolver call of every case within the bound names a defined type, a property/edge defined on it (or __typename), a coercion target that is a subtype, exactly the declared edge parameters with values of the declared types; every non-null active vertex entering a call is an instance of the named type (checked against the dataset's real vertex types).",
             "Schema model parsed independently from the schema text.",
             "DESIGN.md §4 C21"),
+    "C22": ("exploration",
+            "bounded-exhaustive enumeration of the fold-count branch space (count-filter operator x argument class x observer x fold arrangement), each case on the real engine against (1) the reference evaluator with full fold materialisation and (2) metamorphic observer variants",
+            "Two enumerated spaces (one folded edge + <=3 count/observer deviations; two edges with at least one fold + <=2 (quick) / <=3 (thorough) deviations) over datasets with fold sizes 0..3 and count arguments {-1,0,1,2,3,i64::MIN,u64::MAX,[],[2],[0,3]}: engine rows must equal the reference evaluator's, and for every case with a count filter adding a count @output, an @output inside the fold, or a nested fold with an @output must leave the projection on the original outputs unchanged.",
+            "Reference evaluator trusted (Appendix A); observers are outputs (a tag needs a use, which is a filter and legitimately changes rows; tag observers are covered by oracle 1).",
+            "DESIGN.md §4 C22"),
     "C06": ("model_checking",
             "explicit-state search over candidate values: BFS closure from ~1300 seed states, every transition calls the real intersect / exclude_single_value / normalize and is compared with a reference denotation (bitmask over a probe universe)",
             "All seed candidates (Impossible, All, Single, Multiple up to 3 values in both orders, every Range over the bound alphabet with every bound kind and null inclusion) for an integer sort (signed/unsigned boundaries) and a string sort; every ordered pair is intersected, every value excluded, every state normalised; the state space is closed under these operations (no new states appear), so the search is a fixpoint.",
